@@ -189,6 +189,37 @@ def inner_loops(F, host=None):
     return mod_id, stack_id, pre, outer, inner, post
 
 
+def lets_before(outer, node):
+    """`let` statements of the blocks enclosing `node` inside `outer` that come before it"""
+    found = []
+
+    def walk(n, acc):
+        if n is node:
+            found.append(list(acc))
+            return True
+        if isinstance(n, dict):
+            if n.get('k') == 'Block' and 'stmts' in n:
+                here = list(acc)
+                for st in n['stmts']:
+                    if walk(st, here):
+                        return True
+                    if st.get('k') == 'Let':
+                        here.append(st)
+                if n.get('expr') is not None and walk(n['expr'], here):
+                    return True
+                return False
+            for v in n.values():
+                if isinstance(v, (dict, list)) and walk(v, acc):
+                    return True
+        elif isinstance(n, list):
+            for v in n:
+                if walk(v, acc):
+                    return True
+        return False
+    walk(outer, [])
+    return found[0] if found else []
+
+
 def prefix_stmts(F):
     """all statements of Used::new before the worklist loop, `let`s included"""
     out = []
@@ -320,7 +351,10 @@ def run(ctx):
             if kind in where_of:
                 worlds = ev.run_node(where_of[kind][0], node, where_of[kind][1])
             else:
-                worlds = ev.run_node(host, node, env)
+                # locals introduced inside the fixpoint loop before this worklist loop (a visitor built once per round, ...)
+                lets = lets_before(outer, node)
+                blk = {'k': 'Block', 'l': node.get('l'), 'stmts': lets, 'expr': node} if lets else node
+                worlds = ev.run_node(host, blk, env)
         except EvalError as e:
             res.error('worklist loop for %s not analysable: %s' % (short, e))
             continue
